@@ -358,7 +358,7 @@ pub fn run(ctx: &Ctx, r: &mut Report) {
 		}
 		long_select(n, if n > 16 { t_large } else { t_small }, ctx.seed ^ k << 8, r);
 	}
-	let pairs: [(usize, usize); 8] = [(2, 2), (1, 1), (4, 2), (10, 5), (3, 7), (50, 50), (1, 20), (126, 127)];
+	let pairs: [(usize, usize); 8] = [(2, 2), (1, 1), (126, 127), (4, 2), (10, 5), (3, 7), (50, 50), (1, 20)];
 	for (j, (l, rt)) in pairs.into_iter().enumerate() {
 		k += 1;
 		if !ctx.mine(k) || (!ctx.thorough && j >= 4) {
